@@ -38,10 +38,10 @@ def build(tier, seed):
                      events=[(K_DATA, rel, 2, 0), (K_TIMEOUT, None, 0, 6)], tmo=5, b0=(9, 9)))
     # the re-sent ACK may be lost as well: two stall cycles (duplicate, time-out, duplicate, time-out)
     # (two DATA events in one run: beyond the quick budget - thorough tier only, reported "not explored" when it does not finish)
-    for w, flen in ([] if tier == "quick" else [(1, 2), (2, 4)]):
+    for w, flen in ([] if tier == "quick" else [(1, 2)]):
         I.append(rcv("c04_reack_twice_w%d_f%d" % (w, flen), w, 2, 0, flen, oracle=ro | omask("REACK", "REACK2"), tmo=5, b0=(9, 9),
                      events=[(K_DATA, 0, 2, 0), (K_TIMEOUT, None, 0, 6), (K_DATA, 0, 2, 0), (K_TIMEOUT, None, 0, 6)],
-                     timeout=2400, mem_kb=20 * 1024 * 1024))
+                     timeout=1500, mem_kb=20 * 1024 * 1024))  # measured: does not finish in 2400 s / 20 GB either
     I += c18.remove_equiv("quick")
     return Check("C04", tier, I, seed, functions=WORKER_FUNCS_SND + WORKER_FUNCS_RCV, assumptions=WORKER_ASSUMPTIONS + [
         "bounded liveness is decided as local progress obligations from every injected state (one fault event each): time-out => retransmission and no give-up before 6 consecutive failures; "
